@@ -14,54 +14,11 @@ SSF_ESCAPE = "C15.ssf_middleware.raises_before_or_while_delegating"
 HS_KEY = "C15.hyperslab_outside_shape.200_then_body_raises"
 
 
-def bad_hyperslab_class(spec, q):
-    """class of the open finding HS_KEY (a predicate on the request alone): the constraint parses and some projected
-    array / grid / structure member carries a hyperslab that does not lie inside its shape - more indices than dimensions,
-    a start at or beyond the extent, a stop beyond the extent, an empty / inverted / negative range, or a stride < 1"""
-    from pydap.parsers import parse_ce
-    try:
-        proj, _sel = parse_ce(q)
-    except Exception:
-        return False
-    shapes = {}
-    for v in spec["vars"]:
-        if v["k"] == "b":
-            shapes.setdefault(v["name"], []).append(v["shape"])
-        elif v["k"] == "st":
-            for m in v["members"]:
-                shapes.setdefault(m["name"], []).append(m["shape"])
-        elif v["k"] == "g":
-            shapes.setdefault(v["name"], []).append(v["array"]["shape"])
-            for m in [v["array"]] + v["maps"]:
-                shapes.setdefault(m["name"], []).append(m["shape"])
-    sliced = []
-    for p in proj:
-        if isinstance(p, str):
-            continue
-        for name, sl in p:
-            if sl:
-                # a variable projected twice with a hyperslab: the second is applied to the already sliced variable
-                if name in sliced:
-                    return True
-                sliced.append(name)
-            for shape in shapes.get(name, []):
-                if len(sl) > len(shape):
-                    return True
-                for s_, n in zip(sl, shape):
-                    if not isinstance(s_, slice):
-                        continue
-                    start = 0 if s_.start is None else s_.start
-                    stop = n if s_.stop is None else s_.stop
-                    if start < 0 or start >= n or stop > n or stop <= start or (s_.step is not None and s_.step < 1):
-                        return True
-    return False
-
-
-def hs_witness():
+def hs_witness_request():
+    """the witness of the repaired finding HS_KEY: /d.dods?a[20] on Int32 a[3] answered 200 and the body raised"""
     BaseHandler, _ = load()
     spec = {"name": "d", "vars": [{"k": "b", "name": "a", "dt": "i4", "shape": [3], "dims": [], "data": [5, 6, 7]}]}
-    res = G.run_request(BaseHandler(G.build(spec)), "/d.dods", "a[20]")
-    return res["status"] == 200 and bool(res["body_exc"])
+    return G.run_request(BaseHandler(G.build(spec)), "/d.dods", "a[20]")
 
 
 def load():
@@ -93,12 +50,39 @@ def canon_impl(res):
                 head, _, payload = body.partition(b"Data:\n")
                 _, decl, _ = G.parse_dds(head.decode("ascii"))
                 vals = G.decode_dods_values(decl, payload)
-                txt = " ".join(str(int(v)) if float(v).is_integer() else repr(v) for v in vals)
-                body = head + b"Data:\n" + txt.encode()
+                body = head + b"Data:\n" + G.wire_text(vals).encode()
             except Exception as e:
                 return "ok:dods:undecodable:%s" % type(e).__name__
         return "ok:%s:%s" % (kind, hexb(body))
     return "status:%s" % res["status"]
+
+
+EXC_LINE = __import__("re").compile(r"^([A-Za-z_][\w.]*)(?::|$)")
+
+# the requests of C15_exception_classes_reached (lean/Props/C15.lean), run against the implementation too
+REACHED = [("/d", ""), ("/d.dds", "a[x]"), ("/d.dds", "a[1:2:3:4]"), ("/d.dds", "a[3]"), ("/d.dds", "dap4.ce=a"), ("/d.foo", ""),
+           ("/d.dds", "zz.p"), ("/d.dds", "("), ("/d.dds", "a.b"), ("/d.dmr", "")]
+REACHED_SPEC = {"name": "d", "vars": [{"k": "b", "name": "a", "dt": "i4", "shape": [3], "dims": [], "data": [5, 6, 7]}]}
+
+
+def impl_exc_class(res):
+    """the class of the exception the guarded region caught, read off the traceback in the error document (or the class
+    that escaped); None for a 200"""
+    if res["exc"]:
+        return res["exc"]
+    if res["status"] != 500 or res["body"] is None:
+        return None
+    try:
+        m = G.ERR_RE.match(res["body"].decode("utf-8"))
+    except Exception:
+        return "?"
+    if not m:
+        return "?"
+    for line in reversed(m.group(2).strip('"').split("\n")):
+        mm = EXC_LINE.match(line)
+        if mm and not line.startswith(" "):
+            return mm.group(1).rsplit(".", 1)[-1]
+    return "?"
 
 
 def judge(ctx, res, path, query, valid, where, case, cls=None, hs_cls=None):
@@ -197,6 +181,15 @@ def explore(ctx, tier, search=False):
         n_ds = 150
     cases = []
     pinned_probe = []
+    exc_cases = []
+    exc_examples = {}
+    app0 = BaseHandler(G.build(REACHED_SPEC))
+    sx0 = G.ds_sexp(REACHED_SPEC)
+    for path, q in REACHED:
+        res = G.run_request(app0, path, q)
+        case = {"app": "handler", "path": path, "query": q, "dataset": sx0, "class": "reached/fixed"}
+        judge(ctx, res, path, q, False, "handler", case)
+        exc_cases.append(("h-exc %s %s %s" % (sx0, G.hx(path), G.hx(q)), res, case))
     for di in range(n_ds):
         spec = G.gen_dataset(rng, ambiguous=rng.random() < 0.3)
         sx = G.ds_sexp(spec)
@@ -222,11 +215,12 @@ def explore(ctx, tier, search=False):
                 continue
             # dmr / html / ver are registered responses too: a valid constraint must give a readable body there as well
             valid = kind == "valid" and pcls in ("known-ext", "other-ext")
-            hs_cls = HS_KEY if bad_hyperslab_class(spec, q) else None
+            hs_cls = None      # the finding HS_KEY is repaired: a 200 whose body raises is a violation wherever it occurs
             case = {"app": "handler", "path": path, "query": q, "dataset": sx, "class": kind + "/" + pcls}
             verdict = judge(ctx, res, path, q, valid, "handler", case, hs_cls=hs_cls)
             impl = canon_impl(res)
             cases.append(("h-handle %s %s %s" % (sx, G.hx(path), G.hx(q)), impl, case))
+            exc_cases.append(("h-exc %s %s %s" % (sx, G.hx(path), G.hx(q)), res, case))
             ctx.count((sx, path, q), kind != "valid" or bool(q), tag="%s|%s|%s" % (kind, pcls, verdict),
                       sample={"path": path, "query": q, "outcome": impl[:60]})
             # the same request behind the function middleware and with gzip (oracle only)
@@ -249,6 +243,31 @@ def explore(ctx, tier, search=False):
             ctx.tags["model:resolved"] += 1
         adj.append((line, impl, meta))
     ctx.correspond("BaseHandler.__call__ outcome (class, kind, whole body)", adj)
+    # which exception class the guarded region raises: the model's `Exc` constructor vs the class named by the traceback
+    # of the error document.  Where the model says `unspecified` only the table is filled.
+    outs = common.run_driver([c[0] for c in exc_cases])
+    adj = []
+    for (line, res, meta), mod in zip(exc_cases, outs):
+        cls = impl_exc_class(res)
+        if res["status"] == 200:
+            kind = G.KIND_OF_DESC.get(res["cdesc"])
+            impl = "ok:%s" % (kind or "other")
+        else:
+            impl = "err:%s" % cls
+        key = "raised|model=%s|impl=%s" % (mod.split(":", 1)[1] if mod.startswith("err:") else "-", cls or "-")
+        if mod.startswith("err:") or cls:
+            ctx.tags[key] += 1
+            exc_examples.setdefault(key, "%s?%s" % (meta["path"], meta["query"]))
+        if mod == "err:unspecified":
+            impl = mod
+        adj.append((line, impl, meta))
+    ctx.correspond("exception class raised inside the guarded region (Exc constructor vs traceback of the error document)", adj)
+    for key in sorted(exc_examples):
+        ctx.notes.append("exception-class coverage %s: %d, e.g. %s" % (key, ctx.tags[key], exc_examples[key]))
+    reachable = ["ValueError", "ConstraintExpressionError", "KeyError", "AttributeError", "unspecified"]
+    missing = [e for e in reachable if not any(k.startswith("raised|model=%s|" % e) for k in exc_examples)]
+    ctx.notes.append("exception-class coverage: Exc constructors produced by `guarded` reached in this run: %s; not reached: %s" % (
+        ", ".join(e for e in reachable if e not in missing), ", ".join(missing) or "none"))
     for k, v in ctx.notes_count.items():
         ctx.notes.append("%s: %d" % (k, v))
     ctx.notes_count.clear()
@@ -257,16 +276,18 @@ def explore(ctx, tier, search=False):
 def run(ctx):
     ctx.rule = ("per generated dataset (arrays, structures, grids, flat sequences): 10 valid CEs and 2..6 CEs per fault "
                 "kind (unknown variable, non-numeric / over-long / negative / inverted / out-of-range hyperslab, too many "
-                "indices, unbalanced brackets or parentheses, unknown function, wrong operand type, bad operator, percent "
-                "escapes, dap4.ce, byte-level mutation) x paths with known / unmodelled / no / unknown extension; a case is "
+                "indices, unbalanced brackets or parentheses, unknown function, wrong operand type, operands that are not "
+                "Python literals, bad operator, function call combined with a faulty clause or argument, bad paths through "
+                "the nested structure, percent escapes, dap4.ce, byte-level mutation) x paths with known / unmodelled / no / unknown extension; a case is "
                 "non-trivial unless it is the valid empty query; distinct by (dataset, path, query)")
     ctx.assumptions = ["webob Request/Response plumbing is trusted; the body is read through Response.body",
-                       "inside the guarded region the model leaves Arrayterator's treatment of invalid hyperslabs and "
-                       "comparisons of unlike types unresolved (outcome `answered`): containment does not depend on them"]
+                       "inside the guarded region the model leaves comparisons of unlike types, operands that are not literals, paths "
+                       "through base variables and odd record ranges unresolved (outcome `answered`): containment does not depend "
+                       "on them; hyperslabs on arrays and grids are resolved (check_hyperslab)"]
     ctx.proof_phase()
     table_cases(ctx)
     explore(ctx, ctx.tier)
-    return ctx.finish(search=lambda c: explore(c, "thorough", search=True), witnesses={SSF_ESCAPE: ssf_witness, HS_KEY: hs_witness})
+    return ctx.finish(search=lambda c: explore(c, "thorough", search=True), witnesses={SSF_ESCAPE: ssf_witness})
 
 
 def ssf_witness():
@@ -327,19 +348,27 @@ def spec_from_sexp(sx):
     def s(x):
         return bytes.fromhex(x[1:]).decode()
 
+    def val(x):
+        return s(x) if x.startswith("x") else int(x)
+
     def base(b):
         return {"k": "b", "name": s(b[1]), "dt": inv[s(b[2])], "shape": [int(x) for x in b[3]], "dims": [s(x) for x in b[4]],
-                "data": [int(x) for x in b[5]]}
+                "data": [val(x) for x in b[5]]}
+
+    def member(m):
+        if m[0] == "st":
+            return {"k": "st", "name": s(m[1]), "members": [base(b) for b in m[2]]}
+        return base(m)
 
     vars_ = []
     for v in tree[2]:
         if v[0] == "b":
             vars_.append(base(v))
         elif v[0] == "st":
-            vars_.append({"k": "st", "name": s(v[1]), "members": [base(m) for m in v[2]]})
+            vars_.append({"k": "st", "name": s(v[1]), "members": [member(m) for m in v[2]]})
         elif v[0] == "g":
             vars_.append({"k": "g", "name": s(v[1]), "array": base(v[2]), "maps": [base(m) for m in v[3]]})
         else:
             vars_.append({"k": "sq", "name": s(v[1]), "cols": [(s(c[0]), inv[s(c[1])]) for c in v[2]],
-                          "rows": [[int(x) for x in r] for r in v[3]]})
+                          "rows": [[val(x) for x in r] for r in v[3]]})
     return {"name": s(tree[1]), "vars": vars_}
